@@ -13,7 +13,7 @@ import json, os, re, subprocess, sys
 import vlib
 
 HDR = ("From Coq Require Import ZArith String List.\n"
-       "From RV Require Import C18.Types C18.Model C18.Tables Gen.Structs Gen.PyMirror.\n"
+       "From RV Require Import C18.Types C18.Model C18.Tables Gen.Structs Gen.PyMirror Gen.DocOptions.\n"
        "Import ListNotations.\nOpen Scope string_scope. Open Scope Z_scope.\n")
 
 
@@ -168,7 +168,8 @@ def run(ctx):
     libdir = ctx.lib()
     ok1 = ctx.regen("translate_structs.py")
     ok2 = ctx.regen("translate_pymirror.py")
-    proved = ctx.prove("C18") if (ok1 and ok2) else False
+    ok3 = ctx.regen("translate_docoptions.py")
+    proved = ctx.prove("C18") if (ok1 and ok2 and ok3) else False
     ctx.assumptions += [
         "platform: x86-64 SysV / LP64 (sizes and alignments of the scalar tables in coq/C18/Model.v); the tables and the "
         "placement function are validated against gcc and ctypes on every run (correspondence), not proved from the ABI document",
@@ -203,15 +204,24 @@ def run(ctx):
         "Eval vm_compute in (setter_getter_mismatch py_classes py_props py_getter_reads).",
         "Eval vm_compute in (map (fun e => let '(c, p, a, k, _) := e in (c, p, a, k)) (unguarded_loop_exits py_loop_exits)).",
         "Eval vm_compute in (search_mismatch py_loop_search).",
+        "Eval vm_compute in (callback_mismatch tables0 c_structs py_classes py_props py_functypes py_setter_callbacks c_fun_types).",
+        "Eval vm_compute in (callback_props py_classes py_props).",
+        "Eval vm_compute in (doc_deviations tables0 doc_rules c_enums c_decls py_dicts py_named_callbacks doc_py_options doc_c_options doc_c_callbacks doc_pairs doc_enum_tokens).",
+        "Eval vm_compute in (map (fun r => let '(p, c, pr, d, _) := r in (p, c, pr, d)) doc_rules).",
+        "Eval vm_compute in doc_py_options.",
+        "Eval vm_compute in doc_pairs.",
+        "Eval vm_compute in py_named_callbacks.",
+        "Eval vm_compute in (named_callback_mismatch named_callback_prefixes py_named_callbacks).",
+        "Eval vm_compute in named_callback_prefixes.",
     ]) + "\n"
     # the model files must be compiled for this (they are unless regeneration produced something Coq rejects)
-    vlib.coq_make(["C18/Tables.vo", "Gen/Structs.vo", "Gen/PyMirror.vo"], 600)
+    vlib.coq_make(["C18/Tables.vo", "Gen/Structs.vo", "Gen/PyMirror.vo", "Gen/DocOptions.vo"], 600)
     okc, outc = vlib.coq_eval("c18_values", body, 300)
     vals = None
     if okc:
         try:
             vals = eval_blocks(outc)
-            if len(vals) != 16:
+            if len(vals) != 25:
                 vals = None
         except ValueError as e:
             outc += "\nparse error: %r" % (e,)
@@ -220,7 +230,7 @@ def run(ctx):
     ctx.obligation("ground-truth: gcc compiles the offsetof/sizeof/enum program against the current headers", truth is not None, err)
     if vals is None or truth is None:
         return
-    (c_lines, py_lines, name_pairs, option_pairs, mdevs, odevs, shadow, badset, missing, classes, symbols, dead, consts, sgm, ule, smm) = vals
+    (c_lines, py_lines, name_pairs, option_pairs, mdevs, odevs, shadow, badset, missing, classes, symbols, dead, consts, sgm, ule, smm, cbm, cbprops, ddevs, docrules, docpy, docpairs, namedcb, ncm, ncpre) = vals
     coff, csize, enum = truth
 
     # ---- correspondence 1: Coq SysV model == gcc
@@ -241,7 +251,11 @@ def run(ctx):
     job = {"classes": [list(c) for c in classes], "name_pairs": [list(x) for x in name_pairs], "coff": coff, "csize": csize,
            "ckind": kinds, "cmember_struct": memstruct, "enum": enum,
            "option_pairs": [list(x) for x in option_pairs], "symbols": [list(x) for x in symbols], "dead_modules": dead,
-           "expect_pkg": os.path.realpath(os.path.join(vlib.REPO, "rebound")), "expect_lib": os.path.realpath(libdir)}
+           "expect_pkg": os.path.realpath(os.path.join(vlib.REPO, "rebound")), "expect_lib": os.path.realpath(libdir),
+           "tmpdir": os.path.join(vlib.BUILD, "c18"), "callback_props": [list(x) for x in cbprops],
+           "doc_rules": [list(x) for x in docrules], "doc_py": [list(x) for x in docpy], "doc_pairs": [list(x) for x in docpairs],
+           "named_callbacks": [[a, b, c, list(d)] for a, b, c, d in namedcb], "named_prefixes": [list(x) for x in ncpre],
+           "ctypes": {s_["name"]: dict(zip(s_["members"], s_["types"])) for s_ in sj["structs"]}}
     jp = os.path.join(vlib.BUILD, "c18", "job_%d.json" % os.getpid())
     json.dump(job, open(jp, "w"))
     r = vlib.run_py(libdir, os.path.join(vlib.ROOT, "tools", "c18_probe.py"), [jp], timeout=300)
@@ -289,6 +303,8 @@ def run(ctx):
     for mm in probe["mismatch"]:
         if mm["what"].startswith("option-"):
             key = "option:%s.%s" % (mm["struct"], mm["member"])
+        elif mm["what"].startswith("doc-"):
+            key = "doc:%s.%s" % (mm["struct"], mm["member"])
         elif mm["what"].startswith("callback"):
             key = "callback:%s.%s" % (mm["struct"], mm["member"])
         elif mm["what"] == "symbol-missing":
@@ -331,6 +347,24 @@ def run(ctx):
             reported.add(k)
             ctx.violation(k, {"class": cls, "property": prop, "attribute": attr}, False,
                           "setter of %s.%s assigns field %s, which its getter does not read (getter and setter name different C members)" % (cls, prop, attr))
+    for fn_, path_, item_, code in ddevs:
+        k = "doc:%s.%s" % (path_, item_)
+        if k not in reported:
+            reported.add(k)
+            ctx.violation(k, {"file": "docs/" + fn_, "path": path_, "item": item_, "code": code}, False,
+                          "docs/%s documents %s = %s: %s" % (fn_, path_, item_, code))
+    for cls, prop, nm in ncm:
+        k = "callback:%s.%s" % (prop, nm)
+        if k not in reported:
+            reported.add(k)
+            ctx.violation(k, {"class": cls, "property": prop, "name": nm}, False,
+                          "%s.%s = %r does not store the built-in function of that name" % (cls, prop, nm))
+    for cls, prop, what_, code in cbm:
+        k = "callback:%s.%s" % (prop, what_)
+        if k not in reported:
+            reported.add(k)
+            ctx.violation(k, {"class": cls, "property": prop, "item": what_, "code": code}, False,
+                          "callback %s.%s: %s does not match the C member's prototype (%s)" % (cls, prop, what_, code))
     for cls, prop, acc, kind in ule:
         k = "mirror:%s.%s" % (cls, prop)
         if k not in reported:
